@@ -238,6 +238,9 @@ func runProperty(prop, tier string) (exit int) {
 		}
 		configs = append(configs, fmt.Sprintf("%s: %d repo packages, %d repo functions", cfg.Name, len(p.Pkgs), len(p.RepoFns)))
 		for _, id := range spec.Rules {
+			if cfg.Name == cfgAppengine.Name && littleEndianOnly[id] {
+				continue // the rule speaks about the zero-copy / frozen code that the portable build does not contain
+			}
 			fn := ruleTable[id]
 			if fn == nil {
 				addInternal("norule:"+id, "rule "+id+" is mapped but not registered")
@@ -386,6 +389,10 @@ func runProperty(prop, tier string) (exit int) {
 	}
 	return 0
 }
+
+// Rules about code that exists only in the little-endian build (serialization_littleendian.go:
+// reinterpreting casts, frozen format). The portable build (-tags appengine) copies instead.
+var littleEndianOnly = map[string]bool{"A4": true, "L4": true, "B3": true, "L5": true, "L1": true, "T1": true, "L6": true}
 
 var globalAssumptions = []string{
 	"assembly routines (popcount AVX2/NEON, arm64 union2by2) read their slice arguments, write only their declared output buffer, and retain nothing",
